@@ -51,7 +51,7 @@ def build_harness():
     rc, out, dt = sh(["cargo", "build", "--offline", "--quiet"], cwd=HARNESS, timeout=1800,
                      env={"CARGO_NET_OFFLINE": "true"})
     if rc != 0:
-        raise ToolError("harness build failed (does /repo still compile with --cfg nexrad_verif?)\n" + out[-4000:])
+        at = out.find("error"); raise ToolError("harness build failed (does /repo still compile with --cfg nexrad_verif?)\n" + out[max(at, 0):max(at, 0) + 3000])
     _built = True
     return VDRIVE
 
